@@ -74,6 +74,7 @@ Proof.
     + injection Hn as <-. discriminate.
     + destruct e; discriminate.
   - intros x H. discriminate.
+  - intros e en Hn H. discriminate.
   - simpl. lia.
   - intros e en Hn. destruct e as [|[|e]]; simpl in Hn.
     + injection Hn as <-. split; [unfold maxchg, chgv; simpl; lia|]. intros sd. destruct sd; simpl; lia.
